@@ -665,7 +665,25 @@ func maybeAugmentTaprootResolvers(chanType channeldb.ChannelType,
 			if r.htlcResolution.ClaimOutpoint ==
 				htlcRes.ClaimOutpoint {
 
+				// The resolution logged when the channel was
+				// closed doesn't know a preimage that was
+				// learned afterwards, so keep the one (and the
+				// success tx carrying it) that was
+				// checkpointed with the resolver.
+				preimage := r.htlcResolution.Preimage
+				successTx := r.htlcResolution.SignedSuccessTx
+
 				r.htlcResolution = htlcRes
+
+				if preimage != [32]byte{} &&
+					htlcRes.Preimage == [32]byte{} {
+
+					r.htlcResolution.Preimage = preimage
+					if successTx != nil {
+						//nolint:ll
+						r.htlcResolution.SignedSuccessTx = successTx
+					}
+				}
 			}
 		}
 	}
